@@ -498,4 +498,196 @@ theorem tls13_fragmented_partial (H : Crypto.Prims) (P : Prims) (L : SealLaws P)
   rw [hmerge d, htr2, htr1]
   cases d <;> rfl
 
+-- ====================================================================== non-vacuity and counterexamples
+namespace Ex2
+open TLX.Props.C01Pipeline.Ex2 TLX.Props.C01.Ex TLX.Props.C01Capstone.Ex
+
+/-- the server's handshake messages: EncryptedExtensions, a Certificate whose body contains 00 ff ff ff, Finished -/
+def flightMsgs : List (UInt8 × Bytes) := [(8, [0, 0]), (11, [9, 9, 0, 0xff, 0xff, 0xff, 7, 7]), C01Pipeline.Ex.fin]
+example : hsBytes flightMsgs = flightBytes := by decide
+
+/-- The server's flight EncryptedExtensions ‖ Certificate ‖ Finished cut into THREE protected records: after 12 bytes
+    (inside the Certificate) and after 18 bytes (at the start of the Finished); then 16 bytes of application data -/
+def tFG : TranscriptF :=
+  { ch := ch0, sh := sh13, rvC := [3, 1], rvS := [3, 3], ver := [3, 3],
+    cF := [.ccs, .frag (encMsgs [C01Pipeline.Ex.fin]) 1 ⟨[], [], [], 0⟩],
+    sF := [.ccs, .frag (flightBytes.take 12) 0 ⟨[], [], [], 0⟩, .frag ((flightBytes.drop 12).take 6) 0 ⟨[], [], [], 1⟩,
+             .frag (flightBytes.drop 18) 1 ⟨[], [], [], 0⟩, .app k16 ⟨[], [], [], 3⟩] }
+
+def recsFG (d : Bool) : List Bytes := tFG.records Cipher.Toy.prims Cipher.Toy.laws cls13 x13 d
+def uCG (i : Nat) : Bytes := (recsFG false).getD i []
+def uSG (i : Nat) : Bytes := (recsFG true).getD i []
+def capFG : List (Bool × Bytes × Nat) := 
+  [(false, uCG 0, 0), (true, uSG 0 ++ uSG 1, 0), (true, uSG 2 ++ uSG 3 ++ uSG 4, (uSG 0).length + (uSG 1).length),
+   (false, uCG 1 ++ uCG 2, (uCG 0).length),
+   (true, uSG 5, (uSG 0).length + (uSG 1).length + (uSG 2).length + (uSG 3).length + (uSG 4).length)]
+def pktsFG : List MainLoop.Pkt := (List.range capFG.length).map fun i =>
+  mkPkt (capFG.getD i (false, [], 0)).1 (capFG.getD i (false, [], 0)).2.1 i
+def infoFG (tag : Nat) : Pipeline.Info :=
+  ⟨(isnOf (capFG.getD tag (false, [], 0)).1 + (capFG.getD tag (false, [], 0)).2.2) % 4294967296, 1000 + tag, [1], [2], false⟩
+def connFG : Pipeline.Conn := ⟨⟨[443], false, false, false, true, []⟩, sEp, cEp, [2], [1], false, pktsFG⟩
+def chunksFG (d : Bool) : List Bytes := if d then [uSG 0 ++ uSG 1, uSG 2 ++ uSG 3 ++ uSG 4, uSG 5] else [uCG 0, uCG 1 ++ uCG 2]
+
+theorem deliveredFG : DeliveredInOrder infoFG connFG (tFG.stream Cipher.Toy.prims Cipher.Toy.laws cls13 x13) := by
+  intro d
+  cases d
+  · refine ⟨⟨isnOf false, ?_⟩, by decide +kernel⟩
+    have hcut : IsCut (tFG.stream Cipher.Toy.prims Cipher.Toy.laws cls13 x13 false) (chunksFG false) :=
+      ⟨by decide +kernel, by decide +kernel⟩
+    have e2 : (dirSegs infoFG connFG.server false connFG.pkts).map Props.C05.wire
+        = segsOf (isnOf false) 0 (chunksFG false) := by decide +kernel
+    unfold InOrder
+    rw [e2]; exact Delivers.cut _ hcut
+  · refine ⟨⟨isnOf true, ?_⟩, by decide +kernel⟩
+    have hcut : IsCut (tFG.stream Cipher.Toy.prims Cipher.Toy.laws cls13 x13 true) (chunksFG true) :=
+      ⟨by decide +kernel, by decide +kernel⟩
+    have e2 : (dirSegs infoFG connFG.server true connFG.pkts).map Props.C05.wire
+        = segsOf (isnOf true) 0 (chunksFG true) := by decide +kernel
+    unfold InOrder
+    rw [e2]; exact Delivers.cut _ hcut
+
+theorem causalFG : Causal13 (connRecs infoFG connFG) :=
+  ⟨(connRecs infoFG connFG).headD (⟨[], []⟩, false), ((connRecs infoFG connFG).drop 1).headD (⟨[], []⟩, false),
+    (connRecs infoFG connFG).drop 2, by decide +kernel, by decide +kernel, by decide +kernel⟩
+
+theorem conformFG : FragConform tFG.cF ∧ FragConform tFG.sF := by
+  constructor
+  · refine ⟨[C01Pipeline.Ex.fin], by decide, by decide +kernel, ?_, ?_⟩
+    · simp only [tFG, FinsRight]; decide +kernel
+    · simp only [tFG, FragsNonEmpty]; decide +kernel
+  · refine ⟨flightMsgs, by decide, by decide +kernel, ?_, ?_⟩
+    · simp only [tFG, FinsRight]; decide +kernel
+    · simp only [tFG, FragsNonEmpty]; decide +kernel
+
+/-- every hypothesis of `tls13_fragmented_partial` holds for this connection, in which the Certificate message spans
+    two records: the records are in lockstep because the Finished starts its own record and the walk over the
+    continuation record (00 ff ff ff 07 07) hops past its end at once -/
+theorem tls13_fragmented_instance :
+    ∃ frames, Pipeline.connOut hashes Cipher.Toy.prims infoFG connFG kl13
+        = some (frames.map (Pipeline.addressed connFG.opts connFG)) ∧
+      Spec.reassemble frames = some ([], k16) ∧ TimesFromCarriers infoFG connFG frames := by
+  have hres : CipherSuite.resolve (Bytes.beNat tFG.sh.cipherSuite) = some ps13 := by decide +kernel
+  have hargs : Pipeline.suiteArgs ps13 = some a13 := some_getD _ _ (by decide +kernel)
+  have hfound : Keylog.findSessionSecrets kl13 (Pipeline.natsOfBytes tFG.ch.random)
+      = kl13.headD ⟨[], [], []⟩ :: kl13.tail := by decide +kernel
+  have hsec : Pipeline.secretsOf true (kl13.headD ⟨[], [], []⟩ :: kl13.tail) = some secrets13 := by decide +kernel
+  have hgen : KeySchedule.generateKeys hashes .tls13 a13.ks secrets13 tFG.ch.random tFG.sh.random
+      = .ok (some (.tls13 k13)) :=
+    gen_eq13 (KeySchedule.generateKeys hashes .tls13 a13.ks secrets13 cr0 sr0) k13 (by decide +kernel)
+  have hcls : classOf a13.bulk .tls13
+      (Session.extGet ((tFG.sh.extensions.getD []).map extPair) [0x00, 0x16]).isSome a13.tagLen = some cls13 := by
+    decide +kernel
+  have hwr : ∀ d, ∀ r ∈ tFG.records Cipher.Toy.prims Cipher.Toy.laws cls13 x13 d, WholeRecord r := by
+    intro d; cases d <;> decide +kernel
+  have hlen : costF tFG.cF + costF tFG.sF ≤ seqLimit := by decide +kernel
+  have h := tls13_fragmented_partial hashes Cipher.Toy.prims Cipher.Toy.laws kl13 infoFG connFG rfl tFG
+    (by decide) (by decide) rfl rfl rfl rfl (by unfold Negotiated; decide)
+    ps13 hres a13 hargs _ _ hfound secrets13 hsec k13 hgen
+    (k13.clientHsKey.getD []) (k13.clientHsIv.getD []) (k13.clientAppKey.getD []) (k13.clientAppIv.getD [])
+    (k13.serverHsKey.getD []) (k13.serverHsIv.getD []) (k13.serverAppKey.getD []) (k13.serverAppIv.getD [])
+    (by decide +kernel) cls13 hcls (by decide +kernel) (by decide +kernel) (by decide +kernel) (by decide +kernel)
+    conformFG.1 conformFG.2 (by decide +kernel) (by decide +kernel) hwr hlen deliveredFG causalFG
+  have e : (plainOfF tFG.cF, plainOfF tFG.sF) = (([] : Bytes), k16) := by decide
+  rw [e] at h
+  exact h
+
+
+/-- COUNTEREXAMPLE INPUT. The same flight cut into TWO protected records after 12 bytes only: the second record starts
+    inside the Certificate (00 ff ff ff 07 07) and continues with the whole Finished; then 16 bytes of application data -/
+def tFB : TranscriptF :=
+  { ch := ch0, sh := sh13, rvC := [3, 1], rvS := [3, 3], ver := [3, 3],
+    cF := [.ccs, .frag (encMsgs [C01Pipeline.Ex.fin]) 1 ⟨[], [], [], 0⟩],
+    sF := [.ccs, .frag (flightBytes.take 12) 0 ⟨[], [], [], 0⟩, .frag (flightBytes.drop 12) 1 ⟨[], [], [], 0⟩,
+             .app k16 ⟨[], [], [], 3⟩] }
+
+def recsFB (d : Bool) : List Bytes := tFB.records Cipher.Toy.prims Cipher.Toy.laws cls13 x13 d
+def uCB (i : Nat) : Bytes := (recsFB false).getD i []
+def uSB (i : Nat) : Bytes := (recsFB true).getD i []
+def capFB : List (Bool × Bytes × Nat) := 
+  [(false, uCB 0, 0), (true, uSB 0 ++ uSB 1, 0), (true, uSB 2 ++ uSB 3, (uSB 0).length + (uSB 1).length),
+   (false, uCB 1 ++ uCB 2, (uCB 0).length),
+   (true, uSB 4, (uSB 0).length + (uSB 1).length + (uSB 2).length + (uSB 3).length)]
+def pktsFB : List MainLoop.Pkt := (List.range capFB.length).map fun i =>
+  mkPkt (capFB.getD i (false, [], 0)).1 (capFB.getD i (false, [], 0)).2.1 i
+def infoFB (tag : Nat) : Pipeline.Info :=
+  ⟨(isnOf (capFB.getD tag (false, [], 0)).1 + (capFB.getD tag (false, [], 0)).2.2) % 4294967296, 1000 + tag, [1], [2], false⟩
+def connFB : Pipeline.Conn := ⟨⟨[443], false, false, false, true, []⟩, sEp, cEp, [2], [1], false, pktsFB⟩
+def chunksFB (d : Bool) : List Bytes := if d then [uSB 0 ++ uSB 1, uSB 2 ++ uSB 3, uSB 4] else [uCB 0, uCB 1 ++ uCB 2]
+
+theorem deliveredFB : DeliveredInOrder infoFB connFB (tFB.stream Cipher.Toy.prims Cipher.Toy.laws cls13 x13) := by
+  intro d
+  cases d
+  · refine ⟨⟨isnOf false, ?_⟩, by decide +kernel⟩
+    have hcut : IsCut (tFB.stream Cipher.Toy.prims Cipher.Toy.laws cls13 x13 false) (chunksFB false) :=
+      ⟨by decide +kernel, by decide +kernel⟩
+    have e2 : (dirSegs infoFB connFB.server false connFB.pkts).map Props.C05.wire
+        = segsOf (isnOf false) 0 (chunksFB false) := by decide +kernel
+    unfold InOrder
+    rw [e2]; exact Delivers.cut _ hcut
+  · refine ⟨⟨isnOf true, ?_⟩, by decide +kernel⟩
+    have hcut : IsCut (tFB.stream Cipher.Toy.prims Cipher.Toy.laws cls13 x13 true) (chunksFB true) :=
+      ⟨by decide +kernel, by decide +kernel⟩
+    have e2 : (dirSegs infoFB connFB.server true connFB.pkts).map Props.C05.wire
+        = segsOf (isnOf true) 0 (chunksFB true) := by decide +kernel
+    unfold InOrder
+    rw [e2]; exact Delivers.cut _ hcut
+
+theorem causalFB : Causal13 (connRecs infoFB connFB) :=
+  ⟨(connRecs infoFB connFB).headD (⟨[], []⟩, false), ((connRecs infoFB connFB).drop 1).headD (⟨[], []⟩, false),
+    (connRecs infoFB connFB).drop 2, by decide +kernel, by decide +kernel, by decide +kernel⟩
+
+theorem conformFB : FragConform tFB.cF ∧ FragConform tFB.sF := by
+  constructor
+  · refine ⟨[C01Pipeline.Ex.fin], by decide, by decide +kernel, ?_, ?_⟩
+    · simp only [tFB, FinsRight]; decide +kernel
+    · simp only [tFB, FragsNonEmpty]; decide +kernel
+  · refine ⟨flightMsgs, by decide, by decide +kernel, ?_, ?_⟩
+    · simp only [tFB, FinsRight]; decide +kernel
+    · simp only [tFB, FragsNonEmpty]; decide +kernel
+
+/-- 3. the full-strength statement fails: every hypothesis (RFC-conformant fragmentation included) holds for `tFB`, but
+    the server's application data is lost — the tool exports nothing -/
+theorem tls13_fragmented_counterexample : ¬ tls13_connection_exact_statement := by
+  intro hst
+  have hres : CipherSuite.resolve (Bytes.beNat tFB.sh.cipherSuite) = some ps13 := by decide +kernel
+  have hargs : Pipeline.suiteArgs ps13 = some a13 := some_getD _ _ (by decide +kernel)
+  have hfound : Keylog.findSessionSecrets kl13 (Pipeline.natsOfBytes tFB.ch.random)
+      = kl13.headD ⟨[], [], []⟩ :: kl13.tail := by decide +kernel
+  have hsec : Pipeline.secretsOf true (kl13.headD ⟨[], [], []⟩ :: kl13.tail) = some secrets13 := by decide +kernel
+  have hgen : KeySchedule.generateKeys hashes .tls13 a13.ks secrets13 tFB.ch.random tFB.sh.random
+      = .ok (some (.tls13 k13)) :=
+    gen_eq13 (KeySchedule.generateKeys hashes .tls13 a13.ks secrets13 cr0 sr0) k13 (by decide +kernel)
+  have hcls : classOf a13.bulk .tls13
+      (Session.extGet ((tFB.sh.extensions.getD []).map extPair) [0x00, 0x16]).isSome a13.tagLen = some cls13 := by
+    decide +kernel
+  have hwr : ∀ d, ∀ r ∈ tFB.records Cipher.Toy.prims Cipher.Toy.laws cls13 x13 d, WholeRecord r := by
+    intro d; cases d <;> decide +kernel
+  have hlen : costF tFB.cF + costF tFB.sF ≤ seqLimit := by decide +kernel
+  have h := hst hashes Cipher.Toy.prims Cipher.Toy.laws kl13 infoFB connFB rfl tFB
+    (by decide) (by decide) rfl rfl rfl rfl (by unfold Negotiated; decide)
+    ps13 hres a13 hargs _ _ hfound secrets13 hsec k13 hgen
+    (k13.clientHsKey.getD []) (k13.clientHsIv.getD []) (k13.clientAppKey.getD []) (k13.clientAppIv.getD [])
+    (k13.serverHsKey.getD []) (k13.serverHsIv.getD []) (k13.serverAppKey.getD []) (k13.serverAppIv.getD [])
+    (by decide +kernel) cls13 hcls (by decide +kernel) (by decide +kernel) (by decide +kernel) (by decide +kernel)
+    conformFB.1 conformFB.2 hwr hlen deliveredFB causalFB
+  obtain ⟨frames, h1, h2, _⟩ := h
+  have hout : Pipeline.connOut hashes Cipher.Toy.prims infoFB connFB kl13 = some [] := by decide +kernel
+  rw [hout] at h1
+  have hf : frames = [] := by
+    cases frames with
+    | nil => rfl
+    | cons f fs => simp at h1
+  rw [hf] at h2
+  have : plainOfF tFB.sF = [] := by
+    have := congrArg (fun o => o.map Prod.snd) h2
+    simpa [Spec.reassemble] using this.symm
+  exact absurd this (by decide)
+
+-- the lockstep hypothesis fails for the second record of `tFB` and for nothing else
+example : ¬ Lock (FEv.frag (flightBytes.drop 12) 1 ⟨[], [], [], 0⟩) ∧ Lock (FEv.frag (flightBytes.take 12) 0 ⟨[], [], [], 0⟩) := by
+  decide +kernel
+
+
+end Ex2
+
 end TLX.Props.C01Capstone
